@@ -157,6 +157,18 @@ def add_adjustment(spec, rng):
         c["adj"][a] = dict((str(day), oc[1] * n // d) for day, oc in bars.items())
 
 
+def unadjusted_whole_number_opens(spec, rng):
+    """Unadjusted prices (adjust_prices=False) read from files in which whole numbers carry no decimal point, and every
+    open up to the cut day is a whole number (the closes are not): what pandas infers for a column from the WHOLE file -
+    rows after the cut day included - must not reach the prices before it.  Real two-world runs only."""
+    c = spec["cfg"]
+    c["unadjusted"], c["intfmt"], c["default_dh"] = True, True, False
+    for bars in c["market"].values():
+        for d, oc in bars.items():
+            if oc[0] == 12500:
+                oc[0] = rng.choice([8000, 10000, 16000])
+
+
 def _burn_in_past_first_bar(spec, late):
     """Make `spec` (signal-driven, asset `late` in the universe from the start but without data at first) trade daily from the
     close of the late asset's first bar on: during the burn-in its price is MISSING and the signals are fed exactly that;
@@ -471,6 +483,8 @@ def run(prop, replay_file=None):
                 spec = gen_world(rng, realistic=(len(jobs) % 3 == 2))
                 if len(jobs) % 4 == 1:
                     add_adjustment(spec, rng)
+                elif len(jobs) % 8 == 3:
+                    unadjusted_whole_number_opens(spec, random.Random(len(jobs)))
                 s2, T = twin_of(spec, rng)
                 if s2 is None:
                     continue
